@@ -255,10 +255,15 @@ theorem updK_pres (L : LeafK I) (f : Kernel → Kernel) (hf : ∀ k, KStep k (f 
 @[aesop safe apply (rule_sets := [Pres])]
 theorem runK_kill (L : LeafK I) (pid sig : Nat) : Pres I (runK fun k => Kernel.kill k pid sig) := L.runK _ (KStep.kill pid sig)
 @[aesop safe apply (rule_sets := [Pres])]
+theorem runK_killD (L : LeafK I) (pid sig : Nat) : Pres I (runK fun k => Kernel.killD k pid sig) := L.runK _ (KStep.killD pid sig)
+@[aesop safe apply (rule_sets := [Pres])]
 theorem runK_waitpid (L : LeafK I) (pid : Option Nat) : Pres I (runK fun k => Kernel.waitpid k pid) := L.runK _ (KStep.waitpid pid)
 @[aesop safe apply (rule_sets := [Pres])]
 theorem kKill_pres (L : LeafK I) (pid sig : Nat) (via : String) : Pres I (kKill pid sig via) := by
   unfold kKill; pres
+@[aesop safe apply (rule_sets := [Pres])]
+theorem xKill_pres (L : LeafK I) (pid sig : Nat) : Pres I (xKill pid sig) := by
+  unfold xKill; pres
 @[aesop safe apply (rule_sets := [Pres])]
 theorem kWaitpid_pres (L : LeafK I) (pid : Option Nat) : Pres I (kWaitpid pid) := by
   unfold kWaitpid; pres
@@ -323,6 +328,11 @@ theorem sendSignal_presE (L : LeafWE0 I) (u p sg : Nat) : Pres I (sendSignal u p
 @[aesop safe apply (rule_sets := [Pres])]
 theorem sendSignalChild_presE (L : LeafWE0 I) (p c sg : Nat) : Pres I (sendSignalChild p c sg) := by
   unfold sendSignalChild; pres
+@[aesop safe apply (rule_sets := [Pres])]
+theorem signalKids_presE (L : LeafWE0 I) (u p sg : Nat) (cs : List Nat) : Pres I (signalKids u p sg cs) := by
+  induction cs with
+  | nil => unfold signalKids; pres
+  | cons c cs ih => unfold signalKids; aesop (add safe apply ih) (rule_sets := [Pres]) (config := { terminal := true, useDefaultSimpSet := false, useSimpAll := false, maxRuleApplications := 3000 })
 @[aesop safe apply (rule_sets := [Pres])]
 theorem sendSignalProcess_presE (L : LeafWE0 I) (u p sg : Nat) (r : Bool) : Pres I (sendSignalProcess u p sg r) := by
   unfold sendSignalProcess; pres
@@ -660,7 +670,7 @@ theorem rmWatcher_presE (S : SpecCoreRE I) (rec : Rec) (hrec : ∀ t, Pres I (re
 theorem manageWatchersTail_presE (S : SpecCoreRE I) (rec : Rec) (hrec : ∀ t, Pres I (rec t)) (need : Bool) (wt : Waiter) : Pres I (manageWatchersTail rec need wt) := by
   have L := S.toLeafRE
   have LW := L.toLeafWE
-  have hnt : Pres I (newTop [TopCb.watch]) := S.newTopNR _ (by simp)
+  have hnt : Pres I (newTop []) := S.newTopNR _ (by simp)
   unfold manageWatchersTail; aesop (add safe apply hrec, safe apply hnt) (rule_sets := [Pres]) (config := { terminal := true, useDefaultSimpSet := false, useSimpAll := false, maxRuleApplications := 3000 })
 @[aesop safe apply (rule_sets := [Pres])]
 theorem runCall_presE (S : SpecCoreRE I) (rec : Rec) (hrec : ∀ t, Pres I (rec t)) (c : Call) (wt : Waiter) : Pres I (runCall rec c wt) := by
